@@ -465,7 +465,7 @@ func (c *EvalCtx) ident(name string) TV {
 			if v, ok := c.cur.cells[a]; ok {
 				return TV{V: v, T: derefType(a.Type())}
 			}
-			if v, ok := c.frame.regs[a]; ok {
+			if v, ok := c.cur.regs[a]; ok {
 				if _, isT := v.(*Term); isT {
 					return TV{V: v, T: a.Type()}
 				}
@@ -816,6 +816,14 @@ func (c *EvalCtx) callExpr(e *Expr) TV {
 			return TV{V: tb.Le(c.oldA, vv.Arr), T: boolT}
 		}
 		return c.fail("fresh() of non-reference")
+	case "as":
+		// as(e, T): view the reference e as a value of pointer type T
+		v := c.eval(args[0])
+		t := c.typeByName(strings.ReplaceAll(strings.TrimSpace(args[1].String()), " ", ""))
+		if t == nil {
+			return c.fail("unknown type %s", args[1])
+		}
+		return TV{V: c.mat(v, v.T), T: t}
 	case "xzsentinel":
 		// one of package xz's own package-level error sentinels
 		v := c.eval(args[0])
